@@ -160,6 +160,47 @@ def check_core_schedules(case):
     return {"nontrivial": freed > 0, "labels": ["ok" if base[1][0] == "ok" else "err:" + base[1][1]], "sample": src[:300]}
 
 
+# every standard function (list, arities and parameter types read from the implementation, as in C01) applied to boundary
+# values, with a collection after every evaluator step: a builtin that keeps a weak handle across a step shows here
+@st.composite
+def stdlib_gc_case(draw):
+    return {"f": draw(st.integers(0, 10_000)), "args": draw(st.lists(st.integers(0, 10_000), min_size=4, max_size=4)),
+            "wrap": draw(st.sampled_from(["plain", "plain", "in-array", "twice", "field"])), "seed": draw(st.integers(1, 1 << 30))}
+
+
+def check_stdlib_schedules(case):
+    from . import c01
+    fl = util.std_functions()
+    name, arity = fl[case["f"] % len(fl)]
+    small = [i for i, p in enumerate(c01.POOL) if p not in c01.BIG and "range(0, 999)" not in p and "makeArray(50" not in p]
+    args = [small[a % len(small)] for a in case["args"]]
+    if arity <= 4:
+        sig = c01.signature(name, arity)
+        types = c01.pool_types()
+        for i in range(arity):
+            if sig[i] is not None:
+                cands = [j for j in small if types[j] in sig[i]]
+                if cands:
+                    args[i] = cands[case["args"][i] % len(cands)]
+    call = c01.call_src(name, arity, args)
+    if call is None:
+        return {"labels": ["skipped-alloc-cap"]}
+    src = {"plain": call, "in-array": f"[{call}, {call}]", "twice": f"local v = {call}; [v, v == v]", "field": f"{{a: {call}, b: std.length(std.toString(self.a))}}"}[case["wrap"]]
+    base = None
+    freed = 0
+    for m in [{"mode": "never"}, {"mode": "every", "n": 1}, {"mode": "every", "n": 2}, {"mode": "seeded", "seed": case["seed"], "one_in": 3}]:
+        r = util.request({"op": "eval", "src": src, "gc": m, "want": ["multi", "counters"], "fuel": 120_000, "max_stack": 200}, what=f"gc={m}: {src[:300]}")
+        k = outcome_key(r)
+        if k[0] == "fuel":
+            return {"labels": ["fuel"]}
+        if base is None:
+            base = (m, k)
+        elif k != base[1]:
+            raise Violation("schedule-dependent-outcome", f"outcome differs between gc={base[0]} and gc={m}: {str(base[1])[:300]} vs {str(k)[:300]} for {src[:400]}")
+        freed += r.get("gc_freed", 0)
+    return {"nontrivial": freed > 0, "labels": ["ok" if base[1][0] == "ok" else "err:" + base[1][1], case["wrap"]], "sample": src[:300]}
+
+
 # ---------------------------------------------------------------------------------------------
 # (2) steady state
 
@@ -179,6 +220,58 @@ CYCLIC_SOURCES = [
     "std.parseJson('[1, {\"a\": [2, 3]}]')",
     "[x for x in std.range(1, 30) if std.member([y * 2 for y in std.range(1, 30)], x)]",
     "std.extVar('lib').f(3)",
+    # garbage cycles through each kind of heap edge, left pending or evaluated (one line per edge kind and state):
+    # array element -> environment -> array
+    "local a = [a]; std.length(a)",
+    "local a = [a]; std.length(a[0])",
+    "local a = [[a, 1]]; a[0][1]",
+    # object field / object local / assertion environment -> object
+    "std.length({a: self})",
+    "{a: self, b: 1}.a.b",
+    "{local x = self, a: x, b: 2}.a.b",
+    "std.length({local x = self, a: x})",
+    "{assert self.a == 1, a: 1, me: self}.me.a",
+    "{a: {b: $, c: 1}}.a.b.a.c",
+    "std.length({a: {b: $}}.a)",
+    # closure environment, default-argument thunks
+    "local f = function() f; std.type(f())",
+    "local f(x=f) = 1; f()",
+    "local f(x=f) = x; std.type(f())",
+    "local mk() = local g = function(n) if n == 0 then 0 else g(n - 1); g; mk()(3)",
+    "std.foldl(function(g, i) function(x) g(x) + i, [1, 2, 3], function(x) x)(0)",
+    # call thunks made by builtins: function and arguments
+    "local a = std.map(function(x) x, [a]); std.length(a)",
+    "local a = std.map(function(x) x, [a]); std.length(a[0])",
+    "local a = std.makeArray(2, function(i) a); std.length(a)",
+    "local a = std.makeArray(2, function(i) a); std.length(a[1])",
+    "local a = std.mapWithIndex(function(i, x) [i, a], [a]); std.length(a)",
+    "local a = std.mapWithIndex(function(i, x) [i, a], [a]); std.length(a[0][1])",
+    "local o = std.mapWithKey(function(k, v) o, {k: o}); std.length(o)",
+    "local o = std.mapWithKey(function(k, v) o, {k: o}); std.length(o.k)",
+    "local a = std.filterMap(function(x) true, function(x) a, [a]); std.length(a)",
+    "local a = std.filterMap(function(x) true, function(x) a, [1]); std.length(a[0])",
+    "local a = std.flatMap(function(x) [a], [1]); std.length(a[0])",
+    # inheritance: super layers, +: fields (pending field-plus thunks), removed keys, comprehension-built objects
+    "local o = {a: 1} + {b: super.a, c: o}; o.b",
+    "local o = {a: 1} + {b: super.a, c: o}; std.length(o)",
+    "local o = {a: [1]} + {a+: [o]}; std.length(o.a)",
+    "local o = {a: [1]} + {a+: [o]}; std.length(o)",
+    "local o = {a: [1]} + {a+: [o]} + {a+: [2]}; std.length(o.a[1].a)",
+    "local o = {a: [1]} + {a+: [o]}; std.length(std.objectValues(o))",
+    "local o = {a: [1]} + {a+: [o]} + {a+: [o]}; std.length(std.objectValuesAll(o))",
+    "local o = {a: [1]} + {a+: [o]}; std.length(std.mapWithKey(function(k, v) 1, o))",
+    "local o = {a: [1]} + {a+: [o]}; std.length(std.objectKeysValues(o))",
+    "local o = std.objectRemoveKey({a: o, b: 1}, 'b'); std.length(o)",
+    "local o = std.objectRemoveKey({a: o, b: 1}, 'b'); std.length(o.a)",
+    "local o = {[k]: o for k in ['a', 'b']}; std.length(o)",
+    "local o = {[k]: o for k in ['a', 'b']}; std.length(o.a.b)",
+    "local o = {local l = o, [k]: l for k in ['a']}; std.length(o.a)",
+    "local base = {f(x): self, k: 1}, o = base + {me: o}; o.f(1).k",
+    # a failed evaluation leaves nothing behind either
+    "local a = [a, error 'x']; a[1]",
+    "local o = {a: o, b: error 'x'}; o.b",
+    "local a = std.map(function(x) error 'x', [a]); a[0]",
+    "local o = {assert false : 'no', a: o}; o.a",
 ]
 
 
@@ -224,6 +317,17 @@ def check_steady(case):
     if counts[5] != counts[1]:
         raise Violation("heap-grows", f"object count after each of 6 identical cycles (all handles dropped, gc run): {counts} for sources {pool} with gc={case['gc_mode']}")
     return {"nontrivial": True, "labels": [f"growth-after-warmup={counts[1] - counts[0]}"], "sample": {"sources": pool, "counts": counts}}
+
+
+def enum_steady(tier, worker, nworkers):
+    """Every source alone, under two schedules (deterministic part of the steady-state check)."""
+    k = 0
+    for i in range(len(CYCLIC_SOURCES)):
+        for mode in ({"mode": "never"}, {"mode": "every", "n": 1}):
+            for twice in (False, True):
+                if k % nworkers == worker:
+                    yield {"srcs": [i], "gc_mode": mode, "manifest": False, "twice": twice}
+                k += 1
 
 
 # ---------------------------------------------------------------------------------------------
@@ -379,7 +483,9 @@ def check_enum(case):
 CHECKS = [
     Check("schedule_invariance", check_schedules, program_case, quick=120, thorough=4000),
     Check("schedule_invariance_core_programs", check_core_schedules, core_program_case, quick=150, thorough=5000),
+    Check("schedule_invariance_stdlib_matrix", check_stdlib_schedules, stdlib_gc_case, quick=800, thorough=20000),
     Check("steady_state", check_steady, steady_case, quick=30, thorough=800),
+    Check("steady_state_each_source", check_steady, enumerate_fn=enum_steady, exhaustive=True),
     Check("scripted_heap_random", check_heap, heap_case, quick=500, thorough=20000),
     Check("scripted_heap_exhaustive", check_enum, enumerate_fn=enum_heaps, exhaustive=True),
 ]
